@@ -48,6 +48,7 @@ def configs(prop, tier, seed):
             plan.append(("T1", VARIANTS[(seed + 3) % len(VARIANTS)], 3, "zero"))
             plan.append(("T1", VARIANTS[(seed + 4) % len(VARIANTS)], 3, "zero2"))
             plan.append(("T1", VARIANTS[1 + (seed % 2) * 2], 3, "spreadpath"))
+        plan.append(("T1", VARIANTS[(seed + 2) % 6], 3, "dormant"))
     else:
         plan = []
         for v in VARIANTS:
@@ -65,6 +66,8 @@ def configs(prop, tier, seed):
         for v in VARIANTS[:4]:
             plan.append(("T1", v, 4, "spreadpath"))
         plan.append(("T2", VARIANTS[2], 3, "spreadpath"))
+        for v in VARIANTS[:3]:
+            plan.append(("T1", v, 3, "dormant"))
         if prop in ("C02", "C07"):
             for v in VARIANTS[:4]:
                 plan.append(("F1", v, 3, "exact"))
@@ -89,6 +92,13 @@ def configs(prop, tier, seed):
             spec["alpha"] = "exact"
             spec["prices"] = {"a": [4.0, 0.0, 0.0, 2.0], "b": [1.0, 2.0, 0.0, 1.0]}
             spec["preops"] = [["transact", [], "a", 3.0], ["next"]]
+        if al == "dormant":
+            # a security that was held, closed and then skipped for two dates; every op is preceded by a
+            # read of every node's weight and value, leaves first
+            spec["alpha"] = "exact"
+            spec["ndates"] = 6
+            spec["preops"] = [["transact", [], "a", 3.0], ["next"], ["close", [], "a"], ["next"], ["next"]]
+            spec["observe"] = "leaves"
         if shape in ("F1", "F2", "MC"):
             spec["mult"] = {"c": 2} if v["mult"] else {}
         if shape == "T2":
